@@ -111,6 +111,9 @@ def gen_plan(rng, index, tier):
             kw["vkind"] = rng.choice(["float", "int", "arr", "arr2", "none", "all-arr", "all-float", "all-str", "all-bool"])
             if kw["param"] == "vF0":
                 kw["vkind"] = rng.choice(["float", "all-float"])
+            if kw["param"] == "vVol":
+                # a volume-integrated quantity is a number (geometry conversions scale it)
+                kw["vkind"] = rng.choice(["float", "all-float", "arr", "all-arr"])
             if kw["param"] == "vI0":
                 kw["vkind"] = "int"
             if kw["param"] == "vS0":
